@@ -455,11 +455,11 @@ def heights_of(case):
 
 
 @st.composite
-def msa_prms(draw, case, p_none=0.25):
+def msa_prms(draw, case, kinds=None):
     """ MSA (incl. None, 0, exactly a hit height), buffer and okta buffers. """
     out = {}
     hs = heights_of(case)
-    kind = draw(st.sampled_from(['none', 'athit', 'athit', 'near', 'low', 'high', 'zero', 'free']
+    kind = draw(st.sampled_from((kinds or ['none', 'athit', 'athit', 'near', 'low', 'high', 'zero', 'free'])
                                 if hs else ['none', 'free', 'zero']))
     buf = draw(st.sampled_from([0, 0, 50, 500, 1500, 1500]))
     if kind == 'none':
@@ -626,7 +626,7 @@ def merge_dict(a, b):
 @st.composite
 def pipeline_case(draw, weights, vary=('msa', 'okta', 'sep', 'base', 'lowess', 'algo'),
                   anomalies=False, exclude=True, p_default_prms=0.25, global_modes=False,
-                  base_p_default=0.3):
+                  base_p_default=0.3, msa_kinds=None):
     """ A scene plus a parameter set. """
     case = draw(scene(weights))
     if anomalies and draw(st.integers(0, 9)) < 3:
@@ -634,7 +634,7 @@ def pipeline_case(draw, weights, vary=('msa', 'okta', 'sep', 'base', 'lowess', '
     prms = {}
     if draw(st.floats(0, 1)) >= p_default_prms:
         if 'msa' in vary:
-            prms = merge_dict(prms, draw(msa_prms(case)))
+            prms = merge_dict(prms, draw(msa_prms(case, kinds=msa_kinds)))
         if 'okta' in vary:
             prms = merge_dict(prms, draw(okta_prms()))
         if 'sep' in vary:
